@@ -242,7 +242,7 @@ func (l *ledgers) onDoChangeConfig(ni *nodeInc, ld *leader, c Config) {
 			// (updated when the append handler returns) is current
 			// (its highest ever: a suffix dropped later under a newer leader does not undo that the
 			// node had caught up when the round completed)
-			if o.ackedMax >= last {
+			if o.ackedMax >= last || tn.ackedMaxEver >= last {
 				held = true
 			}
 			if !held {
@@ -325,9 +325,13 @@ func (l *ledgers) onServeReturned2(ni *nodeInc) {
 	if ni.serveErr == ErrNodeRemoved {
 		run.reach("node_removed_shutdown")
 		c := l.configAtIndex(l.upto)
-		removedCommitted := false
+		// removed: a committed configuration lists the node and a later committed one does not
+		// (the configurations from before the node joined do not count: F29)
+		removedCommitted, wasMember := false, false
 		for _, i := range l.cfgIdx {
-			if _, ok := l.cfgAt[i].Nodes[ni.node.id]; !ok {
+			if _, ok := l.cfgAt[i].Nodes[ni.node.id]; ok {
+				wasMember = true
+			} else if wasMember {
 				removedCommitted = true
 			}
 		}
